@@ -479,7 +479,11 @@ func (g *Gen) codeLines(allowBlankEdges bool) []string {
 
 type infoSpelling struct{ src, val string }
 
-var infos = []infoSpelling{{"", ""}, {"go", "go"}, {"c++ extra words", "c++ extra words"}, {"a\\*b", "a*b"}, {"x&amp;y", "x&y"}, {"é", "é"}, {"&#x6a;s", "js"}, {"a\"b", "a\"b"}, {"<t>", "<t>"}}
+var infos = []infoSpelling{{"", ""}, {"go", "go"}, {"c++ extra words", "c++ extra words"}, {"a\\*b", "a*b"}, {"x&amp;y", "x&y"}, {"é", "é"}, {"&#x6a;s", "js"}, {"a\"b", "a\"b"}, {"<t>", "<t>"},
+	// spellings whose decoded form, written back bare, would mean something else:
+	// a reference to a backtick, to white space, to an ampersand before a
+	// reference name, an escaped backslash before an escapable character
+	{"a&#96;b", "a`b"}, {"&amp;lt;", "&lt;"}, {"x\\&amp;", "x&amp;"}, {"a&#32;b", "a b"}, {"\\\\*", "\\*"}, {"&#38;#35;", "&#35;"}}
 
 var htmlBlocks6 = [][]string{{"<div>", "hi *x*", "</div>"}, {"<table>", "<tr><td>x</td></tr>", "</table>"}, {"</div>"}, {"<p class=\"c\">t"}, {"<DIV ID=x>", "y"}, {"<center>a</center>"}, {"<hr/>"}}
 var htmlBlocks7 = [][]string{{"<span a=\"b\">", "t"}, {"</ins>"}, {"<my-tag x='1' y>", "z *q*"}}
